@@ -128,6 +128,6 @@ func runCS(c CSCase) error {
 }
 
 func TestConcurrentStrict(t *testing.T) {
-	fx.Run(t, fx.Spec[CSCase]{Prop: "C18", Name: "concurrent_strict", Quick: 160, Thorough: 3000, Gen: genCS, Run: runCS,
+	fx.Run(t, fx.Spec[CSCase]{Prop: "C18", Name: "concurrent_strict", Journal: true, Quick: 160, Thorough: 3000, Gen: genCS, Run: runCS,
 		Class: func(c CSCase) fx.Class { return fx.Class{NonTrivial: true, Fingerprint: fmt.Sprintf("%+v", c), Labels: []string{"format=" + c.Format, "where=" + c.Where}} }})
 }
